@@ -60,16 +60,16 @@ func (ex *Exec) binop(fr *Frame, st *State, op token.Token, x, y Val, rt types.T
 					x = zeroVal(y.T)
 				}
 			}
-			if _, ok := x.T.Underlying().(*types.Slice); ok {
-				// slice == nil
-				e = Eq(x.L[0], IntC(0))
-				if y.L[0].Op != "intconst" {
-					e = Eq(y.L[0], IntC(0))
-				}
-			} else if _, ok := y.T.Underlying().(*types.Slice); ok {
+			_, xs := x.T.Underlying().(*types.Slice)
+			_, ys := y.T.Underlying().(*types.Slice)
+			isNilC := func(v Val) bool { return len(v.L) > 0 && v.L[0].Op == "intconst" && v.L[0].Name == "0" }
+			switch {
+			case (xs || ys) && isNilC(y):
+				e = Eq(x.L[0], IntC(0)) // slice == nil
+			case (xs || ys) && isNilC(x):
 				e = Eq(y.L[0], IntC(0))
-			} else {
-				e = eqVal(x, y)
+			default:
+				e = eqVal(x, y) // (specifications may compare slice headers)
 			}
 		}
 		if op == token.NEQ {
